@@ -17,7 +17,8 @@ CONSTANTS
   Keys, Vals,       \* key-value payload alphabet
   KvChecksNonce,    \* TRUE: executeKVTx compares the tx nonce with the sender nonce (code after the fix)
   EmptyTxInvalid,   \* TRUE: a zero-length tx is reported invalid; FALSE: execFunc dereferences tx == nil (panic)
-  AdminBoundsChecked\* TRUE: AdminOP.Run rejects short input; FALSE: slices input[:32] unchecked (panic)
+  AdminBoundsChecked\* TRUE: AdminOP.Run refuses a direct call before it slices its input (only the genesis Admin
+                    \* contract may call 0xfe); FALSE: input[:32], input[32:52] sliced unchecked (panic on short input)
 
 None == "none"
 
@@ -29,8 +30,8 @@ SignedClasses ==
    "revert",    \* same target, REVERT
    "oog",       \* same target, exceeds the EVM gas budget
    "pre",       \* call to a precompile 0x01..0x08
-   "admok",     \* direct call to 0xfe, well-formed input accepted by the callback
-   "admshort",  \* direct call to 0xfe, input shorter than 52 bytes / inconsistent length word
+   "admok",     \* changenode(bytes) of the genesis Admin contract, which forwards sender|data to 0xfe
+   "admshort",  \* direct call to 0xfe: short input, inconsistent length word, or well-formed input
    "value",     \* value > 0 (no balance anywhere: ErrInsufficientBalance, a consensus error)
    "price",     \* gas price > 0 (cannot buy gas)
    "lowgas",    \* gas below the intrinsic gas
@@ -41,7 +42,7 @@ UnsignedClasses == {"badsig", "junk", "empty"}
 Classes == SignedClasses \cup UnsignedClasses
 KvClasses == {"kv", "kvbig"}
 ConsensusErr == {"value", "price", "lowgas"}
-VmFail == {"revert", "oog", "admshort"}   \* applied, receipt status = failed
+VmFail == {"revert", "oog"}   \* applied; receipt status = failed when the target contract exists
 
 Tx(c, a, n, k, v) == [c |-> c, a |-> a, n |-> n, k |-> k, v |-> v]
 
@@ -72,7 +73,10 @@ Step(s, t) == IF Result(s, t) = "valid" THEN Apply(s, t) ELSE s
 
 (* What the code appends to app.receipts / app.kvs for a valid t. *)
 IsKv(t) == t.c \in KvClasses
-Receipt(s, t, idx) == [t |-> t, idx |-> idx, ok |-> t.c \notin VmFail,
+Receipt(s, t, idx) == [t |-> t, idx |-> idx,
+                       ok |-> IF t.c \in VmFail THEN Target \notin s.created   \* call to an empty account succeeds
+                              ELSE t.c # "admshort",
+
                        log |-> t.c = "call" /\ Target \in s.created]
 KvRec(t) == [k |-> t.k, v |-> t.v]
 ===================================================================================
